@@ -8,6 +8,7 @@ package c16
 // only (which server served the connection); slowness is inconclusive.
 
 import (
+	"encoding/json"
 	"crypto/tls"
 	"fmt"
 	"net"
@@ -108,6 +109,7 @@ func realSocketModes() []string {
 		"realsocket:tls-second-after-first-down",
 		"realsocket:udp-reconnect-after-cut",
 		"realsocket:udp+secret-reconnect-after-cut",
+		"realsocket:udp+secret-rejected-then-accepted",
 	}
 }
 
@@ -190,6 +192,100 @@ func executeRealUDP(mode string) (kind, detail string) {
 	return "", ""
 }
 
+// executeRealUDPRejected: --secure client, UDP upstream with a shared secret. The server first
+// has the secret but no certificate: the attempt completes the handshake and is rejected as
+// insecure. The server is then restarted with a certificate: the next local connection must be
+// served (StartTLS) through the same upstream entry.
+func executeRealUDPRejected(mode string) (kind, detail string) {
+	p := pki.Real()
+	pc, err := net.ListenPacket("udp", "127.0.0.1:0")
+	if err != nil {
+		return "slow", err.Error()
+	}
+	port := pc.LocalAddr().(*net.UDPAddr).Port
+	pc.Close()
+	fake := &world.FakeChannel{ChName: "x", Keep: true, BufLimit: 65536}
+	start := func(withCert bool) (server.Server, error) {
+		entry := map[string]interface{}{"address": fmt.Sprintf("udp://:s3cret@127.0.0.1:%d", port)}
+		if withCert {
+			entry["certificate"], entry["privateKey"] = p.Server.CertPEM, p.Server.KeyPEM
+		}
+		js, _ := json.Marshal([]interface{}{entry})
+		var servers server.Servers
+		if err := servers.UnmarshalJSON(js); err != nil {
+			return nil, err
+		}
+		if err := servers[0].Startup(server.Channels{fake}); err != nil {
+			return nil, err
+		}
+		time.Sleep(200 * time.Millisecond)
+		return servers[0], nil
+	}
+	srv, err := start(false)
+	if err != nil {
+		return "slow", "startup: " + err.Error()
+	}
+	list := &upstream.Upstreams{}
+	if err := list.UnmarshalFlag(fmt.Sprintf("udp://:s3cret@127.0.0.1:%d", port)); err != nil {
+		srv.Shutdown()
+		return "setup", err.Error()
+	}
+	ups := world.ClientUpstreams(list.Data, true, true) // --secure; server certificate not verified (-k)
+	defer ups.Shutdown()
+	ccfg := &cert.ClientConfig{}
+	ccfg.InsecureSkipVerify = true
+	try := func() error {
+		ch := make(chan error, 1)
+		go func() {
+			st, err := ups.Connect(cfgGetter{ccfg}, "x")
+			if err == nil {
+				_, err = st.Write([]byte("marker"))
+			}
+			ch <- err
+		}()
+		select {
+		case err := <-ch:
+			return err
+		case <-time.After(100 * time.Second):
+			return fmt.Errorf("slow: Connect did not return within 100 s")
+		}
+	}
+	err1 := try()
+	if err1 == nil {
+		srv.Shutdown()
+		return "setup", "the insecure endpoint was accepted although security is required (C04's business)"
+	}
+	defer srv.Shutdown()
+	if strings.HasPrefix(err1.Error(), "slow:") {
+		return "slow", err1.Error()
+	}
+	// the endpoint gets its certificate (PacketServer.Shutdown leaves the UDP port bound, so the
+	// server object stays and only its configuration, read for every new session, changes)
+	ps, ok := srv.(*server.PacketServer)
+	if !ok {
+		return "setup", fmt.Sprintf("%T is not a packet server", srv)
+	}
+	ps.ServerConfig.Certificate, ps.ServerConfig.PrivateKey = p.Server.CertPEM, p.Server.KeyPEM
+	time.Sleep(100 * time.Millisecond)
+	err2 := try()
+	if err2 != nil && strings.HasPrefix(err2.Error(), "slow:") {
+		return "slow", err2.Error()
+	}
+	if err2 != nil {
+		return "no-reconnect|real-udp|after-rejected-attempt", fmt.Sprintf("%s: the first attempt was rejected (%v); the endpoint then came back offering StartTLS, but the next local connection failed: %v", mode, err1, err2)
+	}
+	deadline := time.Now().Add(20 * time.Second)
+	for time.Now().Before(deadline) {
+		for i := 0; i < fake.NumTargets(); i++ {
+			if string(fake.Target(i).Bytes()) == "marker" {
+				return "", ""
+			}
+		}
+		time.Sleep(5 * time.Millisecond)
+	}
+	return "slow", "marker reached no target within 20 s"
+}
+
 func executeRealSocket(mode string) (kind, detail string) {
 	bubble.SetupLogging()
 	defer func() {
@@ -197,6 +293,9 @@ func executeRealSocket(mode string) (kind, detail string) {
 			kind, detail = "panic", fmt.Sprint(p)
 		}
 	}()
+	if strings.Contains(mode, "rejected-then-accepted") {
+		return executeRealUDPRejected(mode)
+	}
 	if strings.Contains(mode, ":udp") {
 		return executeRealUDP(mode)
 	}
